@@ -1,6 +1,7 @@
 package props
 
 import (
+	"errors"
 	"bytes"
 	"compress/flate"
 	"encoding/json"
@@ -395,6 +396,35 @@ func writerRun(sp *WriterSpec) (core.Exec, []byte) {
 			tapeChunks(ops, wc)
 			tapeChunks(ops, cc)
 			tags = append(tags, "op:WriteMessage", "len:"+core.SizeClass(len(op.Data)))
+		case 11:
+			// WriteJSON of a value encoding/json refuses: documented as NextWriter(TextMessage), Encode,
+			// Close - the encode error is returned and an empty text message goes out.  On the tape it is
+			// WriteMessage(TextMessage, nil), whose transport and pool events are the same.
+			ic := implicit()
+			var wc, cc [][]byte
+			if sp.Negotiated && wcomp {
+				x := newShadow(level)
+				wc = x.write(nil)
+				cc = x.flush()
+			}
+			if sp.FailAt >= 0 {
+				// with a transport fault planned the encode error would mask the write error: send
+				// the equivalent empty text message instead
+				err = c.WriteMessage(websocket.TextMessage, nil)
+			} else {
+				err = c.WriteJSON(make(chan int))
+				var ute *json.UnsupportedTypeError
+				if errors.As(err, &ute) {
+					err = nil
+				}
+			}
+			w, wIsFlate = nil, false
+			open = false
+			ops.N(0).N(1).Bytes(nil)
+			tapeChunks(ops, ic)
+			tapeChunks(ops, wc)
+			tapeChunks(ops, cc)
+			tags = append(tags, "op:WriteJSON-unencodable")
 		case 1:
 			ic := implicit()
 			var nw io.WriteCloser
@@ -717,6 +747,9 @@ func genMessageOps(rng *rand.Rand, wbuf int, maxLen int, negotiated bool, allowP
 	data := genWPayload(rng, n)
 	switch r := rng.Intn(10); {
 	case r < 3:
+		if rng.Intn(10) == 0 {
+			return []WOp{{K: 11}} // WriteJSON of an unencodable value
+		}
 		return []WOp{{K: 0, Ty: ty, Data: data}}
 	case r < 4 && allowPrepared:
 		*pid++
